@@ -368,6 +368,7 @@ def run(ck):
         ck.discharged.append("generated tables")
     ok, _ = ck.coq_build(["props/C04.vo", "extract/C04_extract.vo"])
     ck.print_assumptions(["DSP.C04"], ["DSP.C04." + t for t in THEOREMS])
+    ck.source_tie("findcmds")
     ck.hygiene()
     ck.ocaml_build()
     ck.harness_build(["c04"])
